@@ -34,7 +34,7 @@ def build(wt, bd):
 
 def demo(wt, bd, seed):
     exe = os.path.join(bd, "seed_demo")
-    rc, out = sh(["cc", "-I", os.path.join(wt, "include"), "-I", bd, "-I", os.path.join(wt, "src"),
+    rc, out = sh(["cc", '-DWT="%s"' % wt, "-I", os.path.join(wt, "include"), "-I", bd, "-I", os.path.join(wt, "src"),
                   os.path.join(seed, "demo.c"), os.path.join(bd, "libsoundswallower.a"), "-lm", "-o", exe])
     if rc:
         return None, "demo does not compile:\n" + out[-1500:]
